@@ -51,6 +51,10 @@ CHECKS = {
          "For generated systems (all instruction kinds: generic / specialised gates, hints, lookup tables, range checks, emulated multiplication, commitments, logs), Groth16/PLONK keys (compressed, raw, raw+unsafe, memory dump), proofs and witnesses: reported byte count == bytes written == bytes consumed (with sentinel bytes after the encoding), re-encoding is byte-identical, the decoded system has the same levels / counts / commitment info and solves every witness to the same verdict and solution, and the full cross matrix {original, decoded} cs x pk x vk proves and verifies (a decoded vk still rejects a wrong public input).",
          "Small-field systems have no exported empty-system factory and are not round-tripped; GKR metadata is covered only through C19's circuits, not here.",
          "DESIGN.md §3 C09"),
+ "C10": ("differential testing of concurrent vs sequential execution in child processes (rapid scenarios; race detector in the thorough tier)",
+         "Generated scenarios share one compiled R1CS / sparse system (witness-dependent lookup table, commitment, hints), Groth16 and PLONK keys, proofs and a solver-option slice with spare capacity among 2-8 goroutines making Solve / Prove / Verify calls with distinct satisfying and non-satisfying witnesses (also on a restored-from-bytes system, also while other circuits compile in the background); every concurrent call must return what it returned alone, a later sequential pass must still match, and the child must not crash, race or wedge.",
+         "Interleavings are sampled by repetition x GOMAXPROCS values, not enumerated; there is no schedule control. Assurance: no divergence in N repetitions and (thorough) a clean race-detector run.",
+         "DESIGN.md §3 C10"),
 }
 
 PENDING = {}
